@@ -99,6 +99,7 @@ def laws_violated(items):
         start = len(r1)
         r1 += [("ShiftIn", n, t), ("ShiftOut", n, t), ("Subst", ps, t), ("FoldId", t), ("ShiftIn", n, w), ("ShiftIn", 1, w)]
         r1 += [("ShiftIn", n, p) for p in ps]
+        r1 += [("SubstApply", ps, t)]
         span.append(start)
     o1 = [classify(o) for o in core.run_harness("irbin", r1)]
     r2, meta2 = [], []
@@ -107,7 +108,8 @@ def laws_violated(items):
         s0 = span[k]
         si, so, su, fi, sw, sw1 = o1[s0:s0 + 6]
         sps = o1[s0 + 6:s0 + 6 + len(ps)]
-        if any(x is None for x in (si, so, su, fi, sw, sw1)) or any(x is None for x in sps):
+        sap = o1[s0 + 6 + len(ps)]
+        if any(x is None for x in (si, so, su, fi, sw, sw1, sap)) or any(x is None for x in sps):
             res.append(None)
             continue
         bad = set()
@@ -121,6 +123,9 @@ def laws_violated(items):
         if not (isinstance(su, tuple) and su[0] == "Panic"):
             r2.append(("ShiftIn", n, su)); meta2.append((k, "lhs", None))
             r2.append(("Subst", sps, unwrap(sw))); meta2.append((k, "rhs", None))
+        if not (isinstance(sap, tuple) and sap[0] == "Panic"):
+            r2.append(("ShiftIn", n, sap)); meta2.append((k, "alhs", None))
+            r2.append(("SubstApply", sps, t)); meta2.append((k, "arhs", None))
         res.append(bad)
     o2 = [classify(o) for o in core.run_harness("irbin", r2)]
     lhs = {}
@@ -132,6 +137,11 @@ def laws_violated(items):
         elif law == "rhs":
             if got != lhs.get(k):
                 res[k].add("subst_shift_commute")
+        elif law == "alhs":
+            lhs[("a", k)] = got
+        elif law == "arhs":
+            if got != lhs.get(("a", k)):
+                res[k].add("subst_apply_shift_commute")
         elif got != expect:
             res[k].add(law)
     return [None if x is None else sorted(x) for x in res]
@@ -156,7 +166,7 @@ def shrink_law(t, n, ps, law):
 
 def run(ctx):
     ok, why = ctx.proof_stage("Props.C25", ["shift_out_in", "shift_in_out", "subst_identity", "subst_shift_commute",
-                                             "fold_identity", "subst_wellkinded_no_panic", "shift_in_shift_in", "subst_shift_cancel"])
+                                             "fold_identity", "subst_wellkinded_no_panic", "shift_in_shift_in", "subst_shift_cancel", "subst_apply_agrees"])
     core.build_harness(bins=["irbin"])
     r = ctx.rng
     nterms = ctx.n(500, 12000)
@@ -188,6 +198,22 @@ def run(ctx):
         cases.append(("FoldId", ("FoldId", t), t))
         cases.append(("ShiftInW", ("ShiftIn", n, w), (n, w)))       # cut-off 1 through the wrapper
         cases.append(("BindersSubst", ("BindersSubst", ks, t, ps), (ks, t, ps)))
+    # Substitution::apply (SubstFolder): terms whose free variables all belong to the substituted binder
+    g1 = irgen.IrGen(r, max_depth=depth, disciplined=True, free_levels=1)
+    gp = irgen.IrGen(r, max_depth=2, disciplined=True, free_levels=2)
+    apply_cases = []
+    for _ in range(ctx.n(300, 6000)):
+        t = g1.any_term()
+        ps = []
+        for i in range(6):
+            ps.append(gp.ty(2, 0) if i % 3 == 0 else (gp.lifetime(0) if i % 3 == 1 else gp.const(0)))
+        n = r.randrange(1, 4)
+        apply_cases.append((t, ps, n))
+        cases.append(("SubstApply", ("SubstApply", ps, t), (ps, t)))
+    for _ in range(ctx.n(60, 1000)):            # free variables of outer binders / wrong kinds: must panic like the model
+        t = g.any_term()
+        ps = [gm.garg(2, 0) for _ in range(r.randrange(7))]
+        cases.append(("SubstApplyMalformed", ("SubstApply", ps, t), (ps, t)))
     # malformed: wrong kinds, short parameter lists, arity mismatch of Binders::substitute
     for _ in range(ctx.n(150, 3000)):
         t = gm.any_term()
@@ -268,6 +294,31 @@ def run(ctx):
             viol += 1
             (ps, t), _ = by["Subst"][i]
             found.append(("subst_shift_commute", t, by["ShiftInW"][i][0][0], ps))
+    # Substitution::apply commutes with shifting (t mentions only the substituted binder, so it is not shifted itself)
+    lhs_c, rhs_c, ps_c = [], [], []
+    ap = by.get("SubstApply", [])
+    for (t, ps, n), ((ps2, t2), res) in zip(apply_cases, ap):
+        if isinstance(res, tuple) and res[0] == "Panic":
+            continue
+        lhs_c.append(("ShiftIn", n, res))
+        for p_ in ps:
+            ps_c.append(("ShiftIn", n, p_))
+    lo = [classify(o) for o in core.run_harness("irbin", lhs_c)]
+    po = [classify(o) for o in core.run_harness("irbin", ps_c)]
+    k = 0
+    meta_c = []
+    for (t, ps, n), ((ps2, t2), res) in zip(apply_cases, ap):
+        if isinstance(res, tuple) and res[0] == "Panic":
+            continue
+        rhs_c.append(("SubstApply", po[6 * k:6 * k + 6], t))
+        meta_c.append((t, ps, n, lo[k]))
+        k += 1
+    ro = [classify(o) for o in core.run_harness("irbin", rhs_c)]
+    for (t, ps, n, l), r_ in zip(meta_c, ro):
+        ctx.count("law:subst_apply_shift_commute", sx.to_sexp(("X", n, ps, t)), nontrivial=True)
+        if l != r_:
+            viol += 1
+            found.append(("subst_apply_shift_commute", t, n, ps))
     seen_laws = set()
     for law, t, n, ps in sorted(found, key=lambda f: irgen.tsize(f[1])):
         if law in seen_laws or len(seen_laws) >= 3:
@@ -296,6 +347,9 @@ def run(ctx):
          [res if (isinstance(res, tuple) and res[0] == "Panic") else ("Ok", res) for _, res in by["IdentitySubstMalformed"]],
          "(fun p => binders_substitute (fst p) (snd p) (identity_subst (fst p)))", RES_EQB, "list vkind * tm", "res tm"),
         ("FoldId", [t for t, _ in by["FoldId"]], [res for _, res in by["FoldId"]], "(fold_id 0)", "tm_eqb", "tm", "tm"),
+        ("SubstApply", [Pair(ps, t) for (ps, t), _ in by["SubstApply"] + by["SubstApplyMalformed"]],
+         [res if (isinstance(res, tuple) and res[0] == "Panic") else ("Ok", res) for _, res in by["SubstApply"] + by["SubstApplyMalformed"]],
+         "(fun p => subst_apply (fst p) 0 (snd p))", RES_EQB, "list tm * tm", "res tm"),
     ]
     mism = 0
     for name, ins, exps, fn, eqb, ity, oty in specs:
